@@ -89,7 +89,9 @@ func (set *Set) GetRandom(count int) []string {
 		return []string{}
 	}
 
-	if internal.AbsInt(count) >= set.Cardinality() {
+	// A non-negative count never yields more than the distinct members; a negative count asks for
+	// exactly |count| picks, repetitions allowed, however small the set is.
+	if count >= set.Cardinality() || len(keys) == 0 {
 		return keys
 	}
 
